@@ -161,6 +161,15 @@ class Reader:
                     f"Bad .fjm file: segment data range [{data_start}, {data_start + data_length})"
                     f" exceeds data pool length {len(data)}."
                 )
+            if data_length > segment_length:
+                raise FlipJumpReadFjmException(
+                    f"Bad .fjm file: segment data-length ({data_length}) exceeds its segment-length ({segment_length})."
+                )
+            if segment_start + segment_length > (1 << 64):
+                raise FlipJumpReadFjmException(
+                    f"Bad .fjm file: segment [{hex(segment_start)}, {hex(segment_start + segment_length)}) "
+                    f"exceeds the 64-bit word-address space."
+                )
             self.memory_segments.append(MemorySegment(segment_start, segment_length))
             if self.version in (FJMVersion.RelativeJumpVersion, FJMVersion.CompressedVersion):
                 word = (1 << self.memory_width) - 1
@@ -178,6 +187,21 @@ class Reader:
                         self.memory[segment_start + i] = 0
                 else:
                     self.zeros_boundaries.append((segment_start + data_length, segment_start + segment_length))
+        self._validate_segments_not_overlapping()
+
+    def _validate_segments_not_overlapping(self) -> None:
+        """
+        the segments of a valid .fjm never share a memory word (the Writer refuses to create such files);
+        the run engines rely on it when they look a word up in the segment list.
+        """
+        previous_end = 0
+        for segment in sorted(self.memory_segments, key=lambda seg: seg.segment_start):
+            if segment.segment_start < previous_end:
+                raise FlipJumpReadFjmException(
+                    f"Bad .fjm file: overlapping segments (a segment starts at word {hex(segment.segment_start)}, "
+                    f"inside another segment that ends at word {hex(previous_end)})."
+                )
+            previous_end = max(previous_end, segment.segment_start + segment.segment_length)
 
     def _get_memory_word(self, word_address: int) -> int:
         word_address &= (1 << self.memory_width) - 1
